@@ -5,14 +5,15 @@ CONSTANTS
   StaleRule = "impl"
   LabelsOf <- MCLabels
   CanonIds <- MCCanon13x
-  MaxTime = 16
+  MaxTime = 40
   HistLen = 40
   Pick <- PickOne
   KnownGaps = {}
   Variants = {"L1", "L1e", "L2", "L2e", "L3", "Lbad", "Lnone"}
   Variants2 = {}
-  StartOffs = {0, 1, 2, 3, 4}
-  EndOffs = {0, 1, 2, 3, 4, 6}
+  StartOffs = {0, 1, 2, 3, 4, 5}
+  EndOffs = {0, 1, 2, 3, 4, 5, 7}
+  FixedStart <- Unset
   MaxBatch = 3
   SameInstant = FALSE
   GCPers = {1, 2, 3, 5, 100}
